@@ -153,7 +153,7 @@ pub fn step(ctx: &Ctx, w: &World, ev: &mut Ev) {
             if series.is_empty() {
                 continue;
             }
-            let key = KEYS[k.min(2)];
+            let key = KEYS[k.min(3)];
             let pf = &w.addrs.pricefeed;
             let count = series.len();
             let distinct = series.iter().map(|x| x.1).collect::<std::collections::BTreeSet<_>>().len();
